@@ -596,6 +596,10 @@ VARIANTS += [
 ]
 # ---- fourth round: rules derived from the mutation sweep and the fourth batch of seeded changes
 VARIANTS += [
+    M("dset-binary-order-test-flipped", DSET, "            elif second is None or groups[0] < second:", "            elif second is None or groups[0] > second:", "BINARY-COARSENINGS"),
+    M("dset-binary-one-block-returns-itself", DSET, "            if not groups:\n                if first is None or second is None:\n                    return []", "            if not groups:\n                if first is None and second is None:\n                    return []", "BINARY-COARSENINGS"),
+    M("dset-binary-no-symmetry-break", DSET, "            elif first is None or groups[0] > first:", "            elif True:", "BINARY-COARSENINGS"),
+    T("twin-dset-binary-unite-args", DSET, "                part_1.unite(first, groups[0])", "                part_1.unite(groups[0], first)"),
     M("lca-index-on-nodes", TREES, "                self.traversal_index[node] = i\n", "                self.traversal_index[node] = i\n                node.add_feature(\"tour_index\", i)\n", "PRIVATE-INDEX"),
     M("triples-two-passes", TREES, "    for tree in trees:\n        tree_leaves, tree_triples = tree_to_triples(tree)\n        leaves.update(tree_leaves)\n        triples.update(tree_triples)\n",
       "    for tree in trees:\n        leaves.update(tree_to_triples(tree)[0])\n\n    for tree in trees:\n        triples.update(tree_to_triples(tree)[1])\n", "ITERABLE-ONCE", "LEAVES-SOURCE"),
